@@ -156,6 +156,9 @@ fn judge(s: &mut Session, key: &str, what: &str, d: &Delivered, plain: &[u8], ad
 
 pub fn generate(s: &mut Session, tier: &str, rng: &mut Rng) {
     let thorough = tier == "thorough";
+    // chunks can be exchanged or replayed unnoticed exactly where a (key, nonce) pair repeats: the two nonce generators
+    // against the specifications' sequences, far beyond the lengths the stream cases reach
+    crate::c12::nonce_generator_cases(s, tier, rng);
     let protos: Vec<&'static str> = CIPHERS.iter().copied().chain(["vmess-aes", "vmess-chacha"]).collect();
     for proto in protos {
         for ws in [false, true] {
